@@ -267,7 +267,7 @@ class Fit(Contract):
 
 
 META = dict(
-    level="proof", assumptions=["A1", "A2", "A6", "A7", "A9"],
+    level="proof", lean_files=["lemmas/Sums.lean"], assumptions=["A1", "A2", "A6", "A7", "A9"],
     trusted=["LinearRegression.predict returns one real per row; LinearRegression(...).fit(X, y, w).coef_ has one entry per column of X",
              "mean_absolute_error is scikit-learn's (weighted) mean absolute error",
              "ghost Sum congruence lemma instances; nonlinear real arithmetic q*e decided by z3 nlsat"],
